@@ -139,3 +139,51 @@ void h_api_set_main_sched(void)
     VF_ASSERT(vf_fail_at == 0 || vf_fail_at > vf_calls || r != ABT_SUCCESS, "an injected failure is reported");
     VF_REACH("api_set_main_sched"); VF_COVER(r != ABT_SUCCESS && basic && n_auto_created == 1 && c0, "basic: association fails after the scheduler was created with two caller pools"); VF_COVER(r != ABT_SUCCESS && !basic && !user && n_auto_created == 1, "default scheduler freed"); VF_COVER(r == ABT_SUCCESS && !other, "own stream");
 }
+
+/* ABT_xstream_create_basic: the scheduler is built on behalf of the caller from
+ * the caller's pools; when the stream cannot be created the caller's pools are
+ * detached again (their attachment counts restored) BEFORE the temporary
+ * scheduler is freed, so they are never freed with it */
+void h_api_xstream_create_basic(void)
+{
+    fresh_globals(); zero(); { int f; vf_fail_at = f; } VF_ASSUME(0 <= vf_fail_at && vf_fail_at <= 8); n_userpool_in_freed_sched = 0;
+    for (int i = 0; i < 2; i++) { int32_t v; VF_ASSUME(v >= 0 && v < 100); upool[i].num_scheds.val = v; } int32_t u0 = upool[0].num_scheds.val, u1 = upool[1].num_scheds.val;
+    int n; VF_ASSUME(-1 <= n && n <= 2); ABT_pool given[2]; int c0, c1; given[0] = c0 ? (ABT_pool)&upool[0] : ABT_POOL_NULL; given[1] = c1 ? (ABT_pool)&upool[1] : ABT_POOL_NULL; ABT_xstream h = (ABT_xstream)16;
+    int r = ABT_xstream_create_basic(ABT_SCHED_DEFAULT, n, n > 0 ? given : NULL, ABT_SCHED_CONFIG_NULL, &h);
+    if (n < 0) { VF_ASSERT(r == ABT_ERR_INV_ARG && vf_calls == 0 && h == ABT_XSTREAM_NULL, "a negative number of pools: refused before anything is created, NULL handle"); VF_REACH("negative"); return; }
+    if (n_auto_created) check_create_outcome(r, &autosched, 1);
+    if (r != ABT_SUCCESS) {
+        VF_ASSERT(h == ABT_XSTREAM_NULL, "failure: the documented NULL handle");
+        VF_ASSERT(n_sched_free == n_auto_created, "failure: the scheduler created for this call is freed exactly once");
+        VF_ASSERT(n_userpool_in_freed_sched == 0 && upool[0].num_scheds.val == u0 && upool[1].num_scheds.val == u1, "failure: the caller's pools are detached again before the temporary scheduler is freed; their attachment counts are as before");
+    } else {
+        VF_ASSERT(h == (ABT_xstream)glob.p_xstream_head && n_sched_free == 0 && upool[0].num_scheds.val == u0 + ((n >= 1 && c0) ? 1 : 0) && upool[1].num_scheds.val == u1 + ((n >= 2 && c1) ? 1 : 0), "success: the caller's pools are attached once each");
+        free(glob.p_xstream_head);
+    }
+    VF_ASSERT(vf_fail_at == 0 || vf_fail_at > vf_calls || r != ABT_SUCCESS, "an injected failure is reported");
+    VF_REACH("create_basic"); VF_COVER(r != ABT_SUCCESS && n == 2 && c0 && c1 && n_auto_created == 1, "stream creation fails with two caller pools"); VF_COVER(r == ABT_SUCCESS && n == 2, "ok");
+}
+/* ABT_xstream_create_with_rank: a requested rank that is taken (or negative) is
+ * refused with everything as before */
+void h_api_xstream_create_with_rank(void)
+{
+    fresh_globals(); zero(); { int f; vf_fail_at = f; } VF_ASSUME(0 <= vf_fail_at && vf_fail_at <= 8);
+    static ABTI_xstream taken; int rk; VF_ASSUME(0 <= rk && rk < 8); taken.rank = rk; taken.p_prev = taken.p_next = NULL; glob.p_xstream_head = &taken; glob.num_xstreams = 1; glob.max_xstreams = 8;
+    int user; int rank; VF_ASSUME(-2 <= rank && rank < 8); ABT_xstream h = (ABT_xstream)16;
+    int r = ABT_xstream_create_with_rank(user ? (ABT_sched)&usched : ABT_SCHED_NULL, rank, &h);
+    if (rank < 0) { VF_ASSERT(r == ABT_ERR_INV_XSTREAM_RANK && vf_calls == 0 && h == ABT_XSTREAM_NULL && glob.num_xstreams == 1 && glob.p_xstream_head == &taken, "a negative rank: refused before anything is created"); VF_REACH("negative rank"); return; }
+    if (r != ABT_SUCCESS) {
+        VF_ASSERT(h == ABT_XSTREAM_NULL && n_sched_free_user == 0 && n_sched_free == n_auto_created, "failure: NULL handle; a default scheduler created for this call is freed once, the caller's never");
+        VF_ASSERT(live_mem == 0 && live_root == 0 && live_pool == 0 && live_ms == 0 && started == 0 && min_live == 0, "failure: every resource obtained so far is released, no native thread runs");
+        VF_ASSERT(glob.num_xstreams == 1 && glob.p_xstream_head == &taken && taken.p_next == NULL && taken.p_prev == NULL && taken.rank == rk, "failure: the stream list is exactly as before");
+        VF_ASSERT(!user || (usched.used == ABTI_SCHED_NOT_USED && usched.p_ythread == NULL), "failure: the caller's scheduler is unused again");
+        VF_ASSERT(rank != rk || r == ABT_ERR_INV_XSTREAM_RANK || r == ABT_ERR_MEM, "a rank in use is reported as such (unless an allocation failed first)");
+    } else {
+        ABTI_xstream *nx = (ABTI_xstream *)h;
+        VF_ASSERT(rank != rk && nx->rank == rank && glob.num_xstreams == 2, "success: exactly the requested rank, which was free");
+        VF_ASSERT((glob.p_xstream_head == nx && nx->p_next == &taken && taken.p_prev == nx && rank < rk) || (glob.p_xstream_head == &taken && taken.p_next == nx && nx->p_prev == &taken && rank > rk), "listed in rank order");
+        free(nx);
+    }
+    VF_ASSERT(vf_fail_at == 0 || vf_fail_at > vf_calls || r != ABT_SUCCESS, "an injected failure is reported");
+    VF_REACH("create_with_rank"); VF_COVER(r == ABT_ERR_INV_XSTREAM_RANK && rank == rk && !user && n_auto_created == 1, "rank taken: default scheduler freed"); VF_COVER(r == ABT_SUCCESS && rank > rk, "ok");
+}
